@@ -363,6 +363,10 @@ func (x *Exec) makeClosure(st *State, lit *ast.FuncLit) Term {
 	f := Term{S: x.d.fresh("clo_"+u.Key, "Fun"), Sort: "Fun", T: x.info.TypeOf(lit)}
 	st.assume(sNot(sEq(f.S, "nilF")))
 	st.closures[f.S] = u
+	if u.Spec != nil && u.Spec.Hint != "" && u.Natural != u.Spec.Hint && st.approx == "" {
+		// the literal got its contract (and ghost attributes) by position only
+		st.approx = fmt.Sprintf("closure contract of %s bound by position: hint %q does not match the literal's natural name %q", u.Name, u.Spec.Hint, u.Natural)
+	}
 	if u.Spec != nil {
 		for _, c := range u.Spec.clauses("ghost") {
 			if x.ghostReady(st, u, c) {
